@@ -265,14 +265,18 @@ def _schedules(ctx):
             meta[key] = (fmt, label)
             for s in M.SCHEDULES:
                 tasks.append((reg[fmt], key, s.name))
-    results = _insp.run_matrix(ctx, tasks, imgs)
+    _insp.SECOND_RUN[0] = True
+    try:
+        results = _insp.run_matrix(ctx, tasks, imgs)
+    finally:
+        _insp.SECOND_RUN[0] = False
     rep.count('inspector x image x schedule runs', len(results), floor=1000)
     groups = {}
     for (cls, key, sched), res in results.items():
         groups.setdefault(key, {})[sched] = res
     diffs, und, n_ok = {}, {}, {}
     seen_classes = set()
-    geometry, tails, behind, stale = {}, {}, {}, {}
+    geometry, tails, behind, stale, shared = {}, {}, {}, {}, {}
     for key, by in sorted(groups.items()):
         fmt, label = meta[key]
         cls_key = _class_of(fmt, label)
@@ -299,6 +303,8 @@ def _schedules(ctx):
             fb, fa = res.get('fresh_before'), res.get('fresh_after')
             if fb is not None and fa is not None and fb != fa:
                 stale.setdefault(fmt, (label, sched, fb, fa))
+            if res.get('shared'):
+                shared.setdefault(fmt, (label, sched, res['shared']))
         errs = set(v[4] for v in verdicts.values())
         if errs == {'ImageFormatError'}:
             # the inspector itself refused the stream, in every schedule
@@ -336,6 +342,16 @@ def _schedules(ctx):
                   'while streaming starts at or after the end of the '
                   'regions present when it was defined')
     for fmt in FORMATS:
+        d = shared.get(fmt)
+        rep.check('R1.9', 'instances share no state[%s]' % fmt, d is None,
+                  'two inspectors that read the same stream have no mutable '
+                  'object in common' if d is None else
+                  'after image %r (schedule %s) was read by two inspector '
+                  'instances, both hold the same %s (first: %s, second: %s'
+                  '%s): what one of them parses changes what the other '
+                  'reports' % (d[0], d[1], d[2][0][2], d[2][0][0],
+                               d[2][0][1], '; it is ' + d[2][0][3]
+                               if d[2][0][3] else ''))
         d = stale.get(fmt)
         rep.check('R1.9', 'fresh inspector[%s]' % fmt, d is None,
                   'a new inspector reports the same initial state before '
